@@ -302,6 +302,18 @@ def tiling_identities(ctx):
     o = ctx.func('utils.DeferredOpenFile._open_if_needed')
     sk = [c for c in own_calls(o.node) if (dotted(c.func) or '') == 'self._fileobj.seek']
     ctx.ob(o, 'seek(self._start_byte) when opening', len(sk) == 1 and norm(sk[0].args[0]) == 'self._start_byte', 'the deferred handle must start at its start byte')
+    if len(sk) == 1:
+        # ... exactly when the file has just been opened and the start byte is not zero (the zero case may skip the seek): every
+        # guard of the seek other than "not yet open" must be implied by a non-zero start byte, and the open precedes it
+        go = ctx.cfg(o)
+        opens = [n for n in own_nodes(o.node) if isinstance(n, ast.Assign) and any(dotted(t) == 'self._fileobj' for t in n.targets)]
+        extra = [(e, pol) for e, pol in q.guards(sk[0]) if '_fileobj' not in norm(e)]
+        okg = all(q.guards_imply([(ast.parse('self._start_byte != 0', mode='eval').body, True)], ast.parse(('' if pol else 'not ') + '(' + norm(e) + ')', mode='eval').body)
+                  or q.guards_imply([(ast.parse('self._start_byte > 0', mode='eval').body, True)], ast.parse(('' if pol else 'not ') + '(' + norm(e) + ')', mode='eval').body)
+                  for e, pol in extra)
+        oko = len(opens) == 1 and go.all_dominate(go.nodes_of(opens[0]), go.nodes_of(sk[0]), go.NORMAL)
+        ctx.ob(o, 'the seek is skipped at most for start byte 0 and follows the open', okg and oko,
+               f'guards of the seek: {[(norm(e), pol) for e, pol in q.guards(sk[0])]}: a part handle that is not positioned at its start byte uploads the bytes of another part')
     # legacy upload
     f = ctx.func('__init__.MultipartUploader._upload_one_part')
     cs = [c for c, r in q.calls_in(ctx, f) if r.kind == 'package' and any(t.name == 'open_file_chunk_reader' for t in r.targets)]
